@@ -936,14 +936,18 @@ func (ob *SuObject) Unique() {
 	if !ob.concurrent {
 		ob.list = unique(ob.list)
 	} else { // concurrent
+		// work on a copy because sorting only blocks writers,
+		// readers can still access ob.list while we are unlocked
+		list := slc.Clone(ob.list)
 		func() {
 			ob.sorting = true
 			defer func() { ob.sorting = false }()
 			ob.Unlock() // can't hold lock while calling Equal
 			defer ob.Lock()
-			ob.list = unique(ob.list)
+			list = unique(list)
 			// note: could become concurrent while unlocked
 		}()
+		ob.list = list
 	}
 }
 
